@@ -74,6 +74,36 @@ Proof.
       apply IH; [cbn [length] in *; lia|lia|cbn [length] in *; lia].
 Qed.
 
+
+Lemma existsb_firstn {A} (f : A -> bool) : forall l k, existsb f l = false -> existsb f (firstn k l) = false.
+Proof.
+  induction l as [|x l IH]; intros k H; [now rewrite firstn_nil|]. destruct k; [reflexivity|].
+  cbn [firstn existsb] in *. apply Bool.orb_false_elim in H as [H1 H2]. rewrite H1. cbn [orb]. apply IH. exact H2.
+Qed.
+
+Lemma existsb_skipn {A} (f : A -> bool) : forall l k, existsb f l = false -> existsb f (skipn k l) = false.
+Proof.
+  induction l as [|x l IH]; intros k H; [now rewrite skipn_nil|]. destruct k; [exact H|].
+  cbn [skipn existsb] in *. apply Bool.orb_false_elim in H as [_ H2]. apply IH. exact H2.
+Qed.
+
+Lemma ends_eol_last : forall l, l <> [] -> ends_eol l = is_eol (nth (length l - 1) l 0%N).
+Proof.
+  induction l as [|c r IH]; intros H; [contradiction|]. destruct r as [|c2 r2]; [reflexivity|].
+  change (ends_eol (c :: c2 :: r2)) with (ends_eol (c2 :: r2)). rewrite IH by discriminate.
+  cbn [length]. replace (S (S (length r2)) - 1) with (S (S (length r2) - 1)) by lia. reflexivity.
+Qed.
+
+(** a window that is empty or ends with a line end leaves no open line *)
+Lemma open_line_firstn (l : bytes) k : k <= length l -> (k = 0 \/ is_eol (nth (k - 1) l 0%N) = true) ->
+  open_line false (firstn k l) = false.
+Proof.
+  intros Hk [->|He]; [reflexivity|]. destruct (Nat.eq_dec k 0) as [->|Hn]; [reflexivity|].
+  assert (Hlen : length (firstn k l) = k) by (rewrite firstn_length; lia).
+  destruct (firstn k l) as [|x r] eqn:Ef; [cbn in Hlen; lia|]. unfold open_line. rewrite <- Ef.
+  rewrite ends_eol_last by (rewrite Ef; discriminate). rewrite firstn_length, Nat.min_l by lia. rewrite nth_firstn' by lia. now rewrite He.
+Qed.
+
 Section Entity.
 Variable m helo : bytes.
 Variable ext8 : bool.
@@ -171,6 +201,218 @@ Proof.
         eexists. split; [reflexivity|]. cbn. eauto.
   - eexists. split; [reflexivity|reflexivity].
   - eexists. split; [reflexivity|reflexivity].
+Qed.
+
+(** qp_header from need_recode() on *)
+Definition hdr_rest (h : nat) (ct cenc : nat * nat) (body_recode : bool) (st : St) : Cres (Run (nat * MpRes)) :=
+  do fl <- need_recode m b h;
+     if f8 fl then Ok (Die 1%N st) else
+     do mp <- is_multipart m (b + fst ct) (snd ct);
+     match mp with
+     | MpDie w0 => Ok (Die w0 st)
+     | MpSyntax => Ok (Die 2%N st)
+     | MpYes _ _ =>
+         if negb (Nat.eqb (snd cenc) 0) then
+           do st1 <- wrap_header m b (fst cenc) st;
+           do st2 <- (if Nat.ltb h (fst cenc + snd cenc) then Ok st1 else wrap_header m (b + (fst cenc + snd cenc)) (h - (fst cenc + snd cenc)) st1);
+           Ok (Done (h, mp) st2)
+         else
+           do st1 <- wrap_header m b h st; Ok (Done (h, mp) st1)
+     | MpNo =>
+         if negb body_recode then
+           do st1 <- wrap_header m b h st; Ok (Done (h, mp) st1)
+         else if negb (Nat.eqb (snd cenc) 0) then
+           do st1 <- wrap_header m b (fst cenc) st;
+           let st2 := recodeheader helo st1 in
+           do st3 <- (if Nat.ltb h (fst cenc + snd cenc) then Ok st2 else wrap_header m (b + (fst cenc + snd cenc)) (h - (fst cenc + snd cenc)) st2);
+           Ok (Done (h, mp) st3)
+         else
+           do st1 <- wrap_header m b h (recodeheader helo st); Ok (Done (h, mp) st1)
+     end.
+
+Lemma hdr_tail (h : nat) (ct cenc : nat * nat) (body_recode : bool) (st : St) :
+  good ext8 D0 st [] -> 1 <= h <= len ->
+  (snd ct = 0 \/ CT_LEN < snd ct /\ fst ct + snd ct <= len /\ field_ok m (b + fst ct) (snd ct)) ->
+  longrun 0 (skipn h w) = longrun 0 (skipn (hpos 0 w) w) ->
+  (existsb is8 (sub m b h) = false ->
+   (forall st0, good ext8 D0 st0 [] ->
+      exists st' t, wrap_header m b h st0 = Ok st' /\ good ext8 D0 st' t /\ (h < len -> t = [])) /\
+   (snd cenc <> 0 -> forall st0, good ext8 D0 st0 [] ->
+      exists st', wrap_header m b (fst cenc) st0 = Ok st' /\ good ext8 D0 st' []) /\
+   (snd cenc <> 0 -> fst cenc + snd cenc <= h -> forall st0, good ext8 D0 st0 [] ->
+      exists st' t, wrap_header m (b + (fst cenc + snd cenc)) (h - (fst cenc + snd cenc)) st0 = Ok st' /\
+                    good ext8 D0 st' t /\ (h < len -> t = []))) ->
+  exists r, hdr_rest h ct cenc body_recode st = Ok r /\ hdr_done st r.
+Proof.
+  intros Hg Hh Hct Hlr Pieces. unfold hdr_rest.
+  rewrite (need_recode_ok m b h) by lia. cbn [bind].
+  destruct (nr_fun_facts (sub m b h) flags0 0 false) as [H8 _]. cbv zeta in H8. cbn [f8 flags0 orb] in H8.
+  destruct (f8 (nr_fun (sub m b h) flags0 0 false)).
+  { eexists. split; [reflexivity|reflexivity]. }
+  symmetry in H8. destruct (Pieces H8) as (PW & P1 & P2).
+  destruct (is_multipart_ok m (b + fst ct) (snd ct)) as (mp & Emp & Hmp).
+  { destruct Hct as [Hz|(A & _ & C)]; [left; exact Hz|right; split; assumption]. }
+  rewrite Emp. cbn [bind].
+  destruct (hdr_match h mp cenc body_recode st Hg PW P1 P2) as (r & Er & Hr).
+  exists r. split; [exact Er|]. destruct r as [[h' mp'] st'|why st']; [|exact Hr].
+  destruct Hr as (-> & -> & t & Gt & Ht). unfold hdr_done. split; [exact Hh|]. split.
+  - intros bs bl ->. destruct (Hmp bs bl eq_refl) as (Hbl & Hbs & Hbe). split; [exact Hbl|].
+    destruct Hct as [Hz|(_ & B & _)]; [rewrite Hz in Hbe; lia|lia].
+  - split; [exact H8|]. split; [exact Hlr|]. exists t. split; assumption.
+Qed.
+
+Lemma qp_header_eq body_recode st :
+  qp_header m helo b len body_recode st =
+  (do c0 <- rd m b;
+   do header0 <-
+     (if N.eqb c0 CR then
+        if Nat.ltb 1 len then do c1 <- rd m (S b); Ok (if N.eqb c1 LF then 2 else 1) else Ok 1
+      else if N.eqb c0 LF then Ok 1 else Ok 0);
+   do r <- (if Nat.eqb header0 0 then qh_scan (2 * len + 2) m b len header0 (0, 0) (0, 0)
+            else Ok (header0, header0, (0, 0), (0, 0)));
+   let '(header, off, ctype, cenc) := r in
+   hdr_rest (if Nat.eqb header 0 then len else header) ctype cenc body_recode st).
+Proof. reflexivity. Qed.
+
+Lemma sub_prefix k : k <= len -> sub m b k = firstn k w.
+Proof.
+  intros H. transitivity (sub m (b + 0) k); [f_equal; lia|]. rewrite <- (sub_sub m b len 0 k) by lia. reflexivity.
+Qed.
+
+Lemma sub_suffix e h : e <= h -> h <= len -> sub m (b + e) (h - e) = skipn e (firstn h w).
+Proof.
+  intros H1 H2. rewrite <- (sub_sub m b len e (h - e)) by lia. fold w. unfold sub. now rewrite skipn_firstn_comm.
+Qed.
+
+Lemma open_line_ends (l : bytes) : ends_eol l = true -> open_line false l = false.
+Proof. intros H. destruct l; [discriminate|]. unfold open_line. now rewrite H. Qed.
+
+(** the message starts with a line end: the header is just that *)
+Lemma hdr_eol_case (c0 : N) (r : bytes) (h : nat) body_recode st :
+  good ext8 D0 st [] -> w = c0 :: r -> is_eol c0 = true -> 1 <= h <= 2 -> h <= len ->
+  skipn h w = after_eol c0 r -> ends_eol (firstn h w) = true ->
+  exists res, hdr_rest h (0, 0) (0, 0) body_recode st = Ok res /\ hdr_done st res.
+Proof.
+  intros Hg Ew He Hh Hhl Hsk Hends. apply hdr_tail; [exact Hg|lia|left; reflexivity| |].
+  - rewrite Hsk. rewrite Ew. rewrite (hpos_eol_z c0 r He). cbn [skipn]. rewrite longrun_cons, He.
+    replace (Nat.ltb MAXLINE 0) with false by (symmetry; apply Nat.ltb_ge; lia). reflexivity.
+  - intros H8. split; [|split; intros Hn; cbn in Hn; contradiction].
+    intros st0 G0. destruct (hdr_piece_short ext8 m b h D0 st0) as (st' & t & E & G & Ht); [lia|exact H8| |exact G0|].
+    + rewrite <- longrun_has_long. apply longrun_short. rewrite sub_length by lia.
+      apply Nat.le_trans with 2; [lia|]. apply Nat.leb_le. reflexivity.
+    + exists st', t. split; [exact E|]. split; [exact G|]. intros _. apply Ht. rewrite sub_prefix by lia.
+      apply open_line_ends. exact Hends.
+Qed.
+
+(** the header found by the scan *)
+Lemma hdr_scan_case (hd o' : nat) (ct' ce' : nat * nat) body_recode st :
+  good ext8 D0 st [] -> is_eol (nth 0 w 0%N) = false ->
+  scan_post m b len hd -> fld_inv2 m b len ct' -> fld_inv2 m b len ce' ->
+  (hd <> 0 -> fle hd ce') ->
+  exists res, hdr_rest (if Nat.eqb hd 0 then len else hd) ct' ce' body_recode st = Ok res /\ hdr_done st res.
+Proof.
+  intros Hg Hc0 Hpost Fct Fce Hmono.
+  set (h := if Nat.eqb hd 0 then len else hd).
+  destruct Hpost as (Hhd & Hnz & Hz). fold w in Hnz, Hz.
+  assert (HhP : h = hpos 0 w).
+  { unfold h. destruct (Nat.eqb_spec hd 0) as [E|E]; [symmetry; apply Hz; exact E|apply Hnz; exact E]. }
+  assert (HP1 : 1 <= hpos 0 w).
+  { destruct w as [|c0 r] eqn:Ew; [cbn in w_len; lia|]. cbn [nth] in Hc0. rewrite (hpos_noneol c0 r 0 Hc0). lia. }
+  assert (HPl : hpos 0 w <= len) by (rewrite <- w_len; apply hpos_le).
+  assert (Hin : h < len -> 0 < hpos 0 w < length w) by (rewrite w_len; lia).
+  apply hdr_tail; [exact Hg|lia|exact (proj1 Fct)|now rewrite HhP|].
+  intros H8. rewrite sub_prefix in H8 by lia.
+  set (hw := firstn h w) in *.
+  assert (Hhwl : length hw = h) by (unfold hw; rewrite firstn_length, w_len; lia).
+  assert (Hne : noempty hw) by (unfold hw; rewrite HhP; apply noempty_header).
+  assert (Hends : h < len -> ends_eol hw = true).
+  { intros Hlt. unfold hw. rewrite HhP. apply hpos_ends_eol; apply Hin; exact Hlt. }
+  split; [|split].
+  - intros st0 G0. destruct (hdr_piece ext8 m b h D0 st0) as (st' & t & E & G & Ht); [lia| | |exact G0|].
+    + rewrite sub_prefix by lia. exact H8.
+    + rewrite sub_prefix by lia. exact Hne.
+    + exists st', t. split; [exact E|]. split; [exact G|]. intros Hlt. apply Ht. rewrite sub_prefix by lia.
+      apply open_line_ends. apply Hends. exact Hlt.
+  - intros Hn st0 G0. destruct Fce as (Finv & F2). destruct (F2 Hn) as (Hls & _).
+    destruct Finv as [Hz0|(_ & Hel & _)]; [contradiction|].
+    assert (Hsh : fst ce' <= h).
+    { unfold h. destruct (Nat.eqb_spec hd 0) as [E|E]; [lia|]. apply (Hmono E). exact Hn. }
+    assert (Epre : sub m b (fst ce') = firstn (fst ce') hw).
+    { rewrite sub_prefix by lia. unfold hw. rewrite firstn_firstn. f_equal. lia. }
+    destruct (hdr_piece ext8 m b (fst ce') D0 st0) as (st' & t & E & G & Ht); [lia| | |exact G0|].
+    + rewrite Epre. apply existsb_firstn. exact H8.
+    + rewrite Epre. apply noempty_prefix. exact Hne.
+    + exists st'. split; [exact E|]. rewrite <- Ht; [exact G|]. rewrite sub_prefix by lia.
+      apply open_line_firstn; [rewrite w_len; lia|exact Hls].
+  - intros Hn Hle st0 G0. destruct Fce as (Finv & F2). destruct (F2 Hn) as (_ & Hnsp).
+    destruct Finv as [Hz0|(Hct & Hel & _ & _ & Hfe)]; [contradiction|].
+    set (e := fst ce' + snd ce') in *.
+    assert (Esuf : sub m (b + e) (h - e) = skipn e hw) by (apply sub_suffix; lia).
+    destruct (hdr_piece ext8 m (b + e) (h - e) D0 st0) as (st' & t & E & G & Ht); [lia| | |exact G0|].
+    + rewrite Esuf. apply existsb_skipn. exact H8.
+    + rewrite Esuf. unfold noempty. rewrite (hpos_full_suffix hw 0 Hne e).
+      * now rewrite skipn_length.
+      * rewrite Hhwl. unfold CT_LEN in Hct. lia.
+      * unfold hw. rewrite nth_firstn' by lia. rewrite <- w_at by lia.
+        replace (b + (e - 1)) with (b + fst ce' + snd ce' - 1) by (unfold e; lia). exact Hfe.
+      * rewrite Hhwl. intros Hcr Hlt. unfold hw in *. rewrite nth_firstn' in Hcr by lia. rewrite nth_firstn' by lia.
+        apply Hnsp; [exact Hcr|lia].
+    + exists st', t. split; [exact E|]. split; [exact G|]. intros Hlt. apply Ht. rewrite Esuf.
+      destruct (Nat.eq_dec e h) as [Eeh|Neh].
+      * rewrite skipn_all2 by lia. reflexivity.
+      * apply open_line_ends. specialize (Hends Hlt). rewrite <- (firstn_skipn e hw) in Hends.
+        rewrite ends_eol_app in Hends; [exact Hends|].
+        intros Hnil. apply (f_equal (@length N)) in Hnil. rewrite skipn_length in Hnil. cbn in Hnil. lia.
+Qed.
+
+(** qp_header: gives up without output, or has written the header as complete legal lines *)
+Lemma qp_header_spec body_recode st : good ext8 D0 st [] ->
+  exists res, qp_header m helo b len body_recode st = Ok res /\ hdr_done st res.
+Proof.
+  intros Hg. rewrite qp_header_eq.
+  assert (Hr0 : rd m b = Ok (nth 0 w 0%N)).
+  { rewrite rd_ok by lia. f_equal. unfold w. rewrite nth_sub by lia. f_equal. lia. }
+  rewrite Hr0. cbn [bind].
+  assert (Ex : exists c0 r, w = c0 :: r).
+  { pose proof w_len as Hlen. destruct w as [|c0 r]; [cbn in Hlen; lia|]. eauto. }
+  destruct Ex as (c0 & r & Ew). pose proof w_len as Hlen. rewrite Ew in Hlen. cbn [length] in Hlen.
+  rewrite Ew. cbn [nth].
+  destruct (is_eol c0) eqn:He.
+  - (* an empty header *)
+    assert (Hends1 : ends_eol (firstn 1 w) = true) by (rewrite Ew; cbn [firstn ends_eol]; exact He).
+    destruct (N.eqb_spec c0 CR) as [HCR|HnCR].
+    + destruct (Nat.ltb_spec 1 len) as [H1|H1].
+      * assert (Hr1 : rd m (S b) = Ok (nth 1 w 0%N)).
+        { rewrite rd_ok by lia. f_equal. unfold w. rewrite nth_sub by lia. f_equal. lia. }
+        rewrite Hr1. cbn [bind]. rewrite Ew.
+        destruct r as [|c1 r1]; [cbn in Hlen; lia|]. cbn [nth].
+        destruct (N.eqb_spec c1 LF) as [HLF|HnLF]; cbn [bind Nat.eqb].
+        -- apply (hdr_eol_case c0 (c1 :: r1)); [exact Hg|exact Ew|exact He|lia|lia| |].
+           ++ rewrite Ew. unfold after_eol. subst c0 c1. reflexivity.
+           ++ rewrite Ew. subst c1. reflexivity.
+        -- apply (hdr_eol_case c0 (c1 :: r1)); [exact Hg|exact Ew|exact He|lia|lia| |exact Hends1].
+           rewrite Ew. unfold after_eol. apply N.eqb_neq in HnLF. rewrite HnLF, Bool.andb_false_r. reflexivity.
+      * cbn [bind Nat.eqb]. apply (hdr_eol_case c0 r); [exact Hg|exact Ew|exact He|lia|lia| |exact Hends1].
+        rewrite Ew. destruct r as [|c1 r1]; [reflexivity|cbn in Hlen; lia].
+    + assert (HLF : N.eqb c0 LF = true).
+      { unfold is_eol in He. apply N.eqb_neq in HnCR. rewrite HnCR in He. exact He. }
+      rewrite HLF. cbn [bind Nat.eqb].
+      apply (hdr_eol_case c0 r); [exact Hg|exact Ew|exact He|lia|lia| |exact Hends1].
+      rewrite Ew. unfold after_eol. apply N.eqb_neq in HnCR. rewrite HnCR. destruct r; reflexivity.
+  - assert (HnCR : N.eqb c0 CR = false) by (unfold is_eol in He; now apply Bool.orb_false_elim in He).
+    assert (HnLF : N.eqb c0 LF = false) by (unfold is_eol in He; now apply Bool.orb_false_elim in He).
+    rewrite HnCR, HnLF. cbn [bind Nat.eqb].
+    destruct (qh_scan_spec m b len Hw (2 * len + 2) 0 (0, 0) (0, 0) true) as (hd & o' & ct' & ce' & E & Hpost & Fct & Fce).
+    + lia.
+    + split; [lia|]. split; [fold w; cbn [skipn]; lia|]. split.
+      * intros _. split; [left; reflexivity|]. intros _. fold w. rewrite Ew. exact He.
+      * discriminate.
+    + split; [left; reflexivity|]. intros Hn. cbn in Hn. contradiction.
+    + split; [left; reflexivity|]. intros Hn. cbn in Hn. contradiction.
+    + rewrite E. cbn [bind]. cbv beta iota.
+      apply hdr_scan_case; try assumption.
+      * rewrite Ew. exact He.
+      * intros Hnz. apply (qh_scan_mono m b len _ 0 (0, 0) (0, 0) hd o' ct' ce' E Hnz); intros Hn; cbn in Hn; contradiction.
 Qed.
 
 End Entity.
